@@ -5993,16 +5993,16 @@ def _vindex_array(x, dict_indexes):
         mul, map(cached_max, _subset_to_indexed_axes(x.chunks))
     )
 
-    n_chunks, remainder = divmod(npoints, max_chunk_point_dimensions)
-    chunks.insert(
-        0,
-        (
-            (max_chunk_point_dimensions,) * n_chunks
-            + ((remainder,) if remainder > 0 else ())
-            if npoints > 0
-            else (0,)
-        ),
-    )
+    if npoints > 0:
+        n_chunks, remainder = divmod(npoints, max_chunk_point_dimensions)
+        point_chunks = (max_chunk_point_dimensions,) * n_chunks + (
+            (remainder,) if remainder > 0 else ()
+        )
+    else:
+        # no points (an indexed axis of length zero has a largest chunk of
+        # zero: nothing to divide by)
+        point_chunks = (0,)
+    chunks.insert(0, point_chunks)
     chunks = tuple(chunks)
 
     if npoints > 0:
